@@ -1537,7 +1537,19 @@ macro_rules! public_decode_function{
                     // Wasn't read from `src`!, leave out_read to 0
                 }
                 DecoderResult::OutputFull => {
-                    panic!("Output buffer must have been too small.");
+                    // Nothing was consumed. This can happen even with an
+                    // output buffer of the documented minimum size when
+                    // a caller that replaces errors has used part of the
+                    // buffer for a REPLACEMENT CHARACTER earlier in the
+                    // same call. Go back to the state we came from so
+                    // that the byte is pushed again once the caller has
+                    // provided more output space.
+                    self.life_cycle = match first_byte {
+                        0xEFu8 => DecoderLifeCycle::SeenUtf8First,
+                        0xFEu8 => DecoderLifeCycle::SeenUtf16BeFirst,
+                        0xFFu8 => DecoderLifeCycle::SeenUtf16LeFirst,
+                        _ => DecoderLifeCycle::ConvertingWithPendingBB,
+                    };
                 }
             }
             return (first_result, out_read, first_written);
@@ -1582,7 +1594,17 @@ macro_rules! public_decode_function{
                     first_read = 0usize; // Wasn't read from `src`!
                 }
                 DecoderResult::OutputFull => {
-                    panic!("Output buffer must have been too small.");
+                    if first_read != 1usize {
+                        panic!("Output buffer must have been too small.");
+                    }
+                    // The output of the first byte fit but there was no
+                    // space left for the output of the second one, which
+                    // can happen with an output buffer of the documented
+                    // minimum size. The second byte isn't in `src`, so
+                    // remember to push it before the next buffer once the
+                    // caller has provided more output space.
+                    self.life_cycle = DecoderLifeCycle::ConvertingWithPendingBB;
+                    first_read = 0usize; // Wasn't read from `src`!
                 }
             }
             return (first_result, first_read, first_written);
